@@ -133,6 +133,23 @@ class Endpoint(threading.Thread):
                             break
                         sent_total += sl.value
                     self.results.put(("send", rets[-1] if rets else 1, sent_total))
+                elif op == "send_many":
+                    # many small writes in a row (one record each): cmd[1] = data, cmd[2] = chunk sizes (cycled)
+                    data, sizes = cmd[1], cmd[2]
+                    off, i, ret, calls = 0, 0, 1, 0
+                    fn = l.tls13_send if t13 else l.tls_send
+                    buf = Buf.of(data) if data else Buf(1)
+                    sl = ctypes.c_size_t(0)
+                    while off < len(data):
+                        n = min(sizes[i % len(sizes)], len(data) - off); i += 1
+                        sl.value = 0
+                        ret = fn(self.conn, buf.ptr + off, n, ctypes.byref(sl))
+                        calls += 1
+                        if ret != 1 or sl.value != n:
+                            ret = ret if ret != 1 else -1000 - sl.value
+                            break
+                        off += n
+                    self.results.put(("send_many", ret, off, calls))
                 elif op == "recv":
                     bufsize = cmd[1]
                     out = Buf(bufsize, fill=0xA5)
